@@ -121,6 +121,7 @@ class Collector:
         self.notes = []
         self.config = None
         self.enumerating = False
+        self.unreproducible = []   # violations seen once that reproduce neither in-process nor from their case
         self._sample_tick = 0
 
     # counting -------------------------------------------------------------------------------------------
@@ -208,7 +209,7 @@ class Collector:
                 'classes': dict(self.classes), 'samples': self.samples, 'known': self.known,
                 'excluded': dict(self.excluded), 'violations': self.violations,
                 'enumerated': self.enumerated, 'nontrivial_count': self.nontrivial_count, 'exhaustive': self.exhaustive, 'notes': self.notes,
-                'other_sigs': dict(self.other_sigs)}
+                'other_sigs': dict(self.other_sigs), 'unreproducible': self.unreproducible}
 
 
 # ------------------------------------------------------------------------------------------------ hypothesis glue
@@ -225,6 +226,28 @@ def hyp_settings(max_examples, stateful_step_count=None, shrink=True):
     if stateful_step_count is not None:
         kw['stateful_step_count'] = stateful_step_count
     return settings(**kw)
+
+
+def _reproduces_in_fresh_process(col, lf):
+    """replay a recorded case with `run.py replay` in a new interpreter (same repo, same configuration)"""
+    import subprocess
+    import tempfile
+    case = lf['case']
+    if col.config and isinstance(case, dict) and 'config' not in case:
+        case = dict(case, config=col.config)
+    with tempfile.NamedTemporaryFile('w', suffix='.json', delete=False) as f:
+        json.dump({'property': col.prop, 'sig': lf['sig'], 'case': case}, f)
+        path = f.name
+    try:
+        e = dict(os.environ)
+        e.pop('VERIF_PINNED', None)
+        r = subprocess.run([sys.executable, os.path.join(env.VERIF_DIR, 'run.py'), 'replay', path],
+                           capture_output=True, text=True, env=e, timeout=600)
+        return r.returncode == 1
+    except Exception:  # noqa
+        return False
+    finally:
+        os.unlink(path)
 
 
 def run_property(col, make_test, max_examples, tag='', stateful_step_count=None, shrink=True):
@@ -262,9 +285,26 @@ def run_property(col, make_test, max_examples, tag='', stateful_step_count=None,
                 return
         except herr.Flaky as e:
             lf = col.last_failure
+            if lf is not None and _reproduces_in_fresh_process(col, lf):
+                # the violation was seen, did not repeat on Hypothesis' re-run in this process, but does reproduce
+                # from the recorded case in a fresh process: the code under test carries state from call to call
+                # (the harness itself is deterministic: same seed, same counts, checked on the unchanged tree)
+                lf = dict(lf)
+                lf['detail'] = {'observed': lf['detail'], 'note': 'not repeatable within one process (state carried '
+                                'between calls); reproduces from this case in a fresh process'}
+                col.violations.append(lf)
+                col.muted.add(lf['sig'])
+                if rnd + 1 >= max_rounds:
+                    return
+                continue
             if lf is not None:
-                # the violation was seen but did not reproduce on Hypothesis' re-run: nondeterministic harness
-                raise HarnessError(f"flaky failure for sig {lf['sig']}: {e}")
+                # seen once, neither repeatable here nor from the recorded case alone: it depends on what earlier
+                # examples left behind. Not reportable as a violation (no replay); remembered, the search goes on.
+                col.unreproducible.append({'sig': lf['sig'], 'detail': lf['detail']})
+                col.muted.add(lf['sig'])
+                if rnd + 1 >= max_rounds:
+                    return
+                continue
             raise HarnessError(f"flaky test: {e}")
         except herr.FailedHealthCheck as e:
             raise HarnessError(f"generator health check failed: {e}")
@@ -363,9 +403,10 @@ def run_check(prop, tier, seed):
         with ctx.Pool(min(nshards, os.cpu_count() or 4)) as pool:
             results = pool.map(_shard_entry, jobs, chunksize=1)
     errs = [r for r in results if 'harness_error' in r]
-    if errs:
-        for r in errs:
-            sys.stderr.write(r['traceback'] + '\n')
+    results = [r for r in results if 'harness_error' not in r]
+    for r in errs:
+        sys.stderr.write(r['traceback'] + '\n')
+    if errs and not any(r['violations'] for r in results):
         print(f"HARNESS-ERROR property={prop} {errs[0]['harness_error']}")
         return 2
 
@@ -499,7 +540,14 @@ def run_check(prop, tier, seed):
     print(f"{prop} tier={tier} seed={seed} evaluations={evaluations} distinct_nontrivial={len(nontrivial) + int(nontrivial_count)} "
           f"violations={len(vio_out)} known={sum(k['count'] for k in known.values())} wall={wall:.1f}s")
     if vio_out:
+        if errs:
+            print(f"NOTE property={prop} {len(errs)} shard(s) also ended with a harness error: {errs[0]['harness_error'][:200]}")
         return 1
+    unrep = [u for r in results for u in r.get('unreproducible', [])]
+    if unrep:
+        print(f"HARNESS-ERROR property={prop} {len(unrep)} violation(s) were observed once but reproduce neither in the same "
+              f"process nor from their recorded case (state carried over from earlier examples?): {unrep[0]['sig']}")
+        return 2
     if missing:
         print(f"HARNESS-ERROR property={prop} generator never produced required classes: {missing}")
         return 2
